@@ -78,7 +78,9 @@ func checkC02(c *fw.Ctx) {
 		if fn == nil {
 			continue
 		}
-		for _, call := range fw.CallsTo(fn, true, func(n string) bool { return strings.HasPrefix(n, "github.com/tidwall/sjson.") || strings.HasPrefix(n, "github.com/tidwall/gjson.Get") }) {
+		for _, call := range fw.CallsTo(fn, true, func(n string) bool {
+			return strings.HasPrefix(n, "github.com/tidwall/sjson.") || strings.HasPrefix(n, "github.com/tidwall/gjson.Get")
+		}) {
 			args := call.Common().Args
 			if len(args) < 2 {
 				continue
